@@ -1642,7 +1642,8 @@ class BaseBosonicState(BaseState):
         elif isinstance(modes, int):  # pragma: no cover
             modes = [modes]
 
-        ind = np.sort(np.concatenate([2 * np.array(modes), 2 * np.array(modes) + 1]))
+        # (x, p) pairs of the modes in the order they were asked for
+        ind = np.array([[2 * m, 2 * m + 1] for m in modes], dtype=int).ravel()
         avg_mu = np.real_if_close(np.sum(self._weights[:, None] * self._mus[:, ind], axis=0))
         if avg_mu.imag.any():
             raise ValueError("State mean is complex valued.")
